@@ -5,7 +5,7 @@
   sens/seed.py check <seeddir> [ID] [--tier T]   apply patch, run ./check ID against the scratch tree, revert
 """
 import glob, json, os, re, shutil, subprocess, sys, time
-HERE = os.path.dirname(os.path.abspath(__file__)); VERIF = os.path.dirname(HERE); WT = "/var/tmp/vmut"
+HERE = os.path.dirname(os.path.abspath(__file__)); VERIF = os.path.dirname(HERE); WT = os.environ.get("VERIF_WT", "/var/tmp/vmut")
 ENV = dict(os.environ, GOFLAGS="-mod=mod", GOPROXY="off", GOSUMDB="off", GOTOOLCHAIN="local")
 def sh(cmd, cwd=None, env=None, timeout=1800):
     r = subprocess.run(cmd, shell=isinstance(cmd, str), cwd=cwd, env=env or ENV, capture_output=True, text=True, timeout=timeout)
@@ -33,7 +33,7 @@ def verify(seed):
             os.makedirs(os.path.dirname(place), exist_ok=True)
             src = [f for f in demos if os.path.basename(f) == os.path.basename(place)] or demos
             shutil.copy(src[0], place)
-    cmd = meta["demo_cmd"].replace("/tmp/wt-%s" % meta["property"], WT)
+    cmd = re.sub(r"/tmp/wt2?-C\d\d", WT, meta["demo_cmd"])
     put()
     rc0, out0 = sh(cmd, cwd=WT)
     print("demo WITHOUT change: rc=%d %s" % (rc0, "(ok)" if rc0 == 0 else "UNEXPECTED\n" + out0[-1500:]))
@@ -61,7 +61,7 @@ def check(seed, pid, tier):
     rc, out = apply(seed)
     if rc: print("patch does not apply:", out); return 2
     t0 = time.time()
-    r = subprocess.run([os.path.join(VERIF, "check"), pid, "--tier", tier], cwd=VERIF, env=dict(os.environ, VERIF_REPO=WT, VERIF_EVIDENCE_DIR="/tmp/verif-sens-evidence", VERIF_REPLAY_OUT="/tmp/verif-sens-replays"), capture_output=True, text=True)
+    r = subprocess.run([os.path.join(VERIF, "check"), pid, "--tier", tier], cwd=VERIF, env=dict(os.environ, VERIF_REPO=WT, VERIF_EVIDENCE_DIR="/tmp/verif-sens-evidence" + os.path.basename(WT), VERIF_REPLAY_OUT="/tmp/verif-sens-replays" + os.path.basename(WT)), capture_output=True, text=True)
     print("%s against %s: rc=%d (%.0fs)" % (pid, os.path.basename(seed.rstrip('/')), r.returncode, time.time() - t0))
     for l in r.stdout.splitlines():
         if l.startswith(("violation detail", "VIOLATION", "OK ", "KNOWN")): print("   " + l[:400])
